@@ -62,7 +62,7 @@ extern "C" void sim_log_handler(const char *msg, void *data) {
 	w->log_total++;
 	if (!msg) { w->log_null++; return; }
 	if (w->log.size() < 200) w->log.push_back(std::string(msg).substr(0, 300));
-	if (!w->log_expect.empty()) { if (strstr(msg, w->log_expect.c_str())) w->log_expect_full++; if (strstr(msg, w->log_expect.substr(0, 40).c_str())) w->log_expect_prefix++; }
+	if (!w->log_expect.empty()) { if (const char *at = strstr(msg, w->log_expect.c_str())) { w->log_expect_full++; if (!w->log_expect_tail_set) { w->log_expect_tail = at + w->log_expect.size(); w->log_expect_tail_set = true; } } if (strstr(msg, w->log_expect.substr(0, 40).c_str())) w->log_expect_prefix++; }
 	{   // "delivered as a complete message": a single character, or nothing but punctuation, is a piece of a message
 		size_t n = strlen(msg); while (n && (msg[n - 1] == '\n' || msg[n - 1] == '\r')) n--;
 		bool punct = n > 0 && n <= 3; for (size_t k = 0; k < n && punct; k++) if (!strchr("\":;,.' \t", msg[k])) punct = false;
